@@ -73,6 +73,7 @@ THEOREMS = [
     "Optyx.Props.VarsIterTie.varsIter_frame",
     "Optyx.Props.StateTie.edits_are_source",
     "Optyx.Props.StateTie.edit_clears_caches_of_source_equations",
+    "Optyx.Props.StateTie.accessors_text",
     "Optyx.Props.PinsC16.anchors",
 ]
 ASSUMPTIONS = [
